@@ -445,7 +445,10 @@ one (what `DispenseInstantly` does when the unit conversion fails, at once or ha
 as it was, whatever it holds (no invariant needed), whatever id it names and under any interceptor: the listing, and
 so every List call with any token and size, is the same before and after; and on a stored item the call reports the
 callback's error (`failed`), on an absent one `NotFound`, on the empty id a refusal.  Both callbacks of a dispense
-are tame, and a history without intercepted writes is a history of `C15_id_interceptor`. -/
+are tame: for EVERY combination of the units a stock keeps Used / Remaining in (or does not keep them) and the unit
+dispensed, the callback of `DispenseInstantly` (`dispenseHook`: `updateStock` + `unitpb.Convert` over the unit table)
+is tame, and whenever the conversion fails (at once or half-way) the store is left as it was; a history without
+intercepted writes is a history of `C15_id_interceptor`. -/
 theorem C15_failed_dispense_invisible (f : String → String) (s : RStore) (k : String) :
     (s.hstep f (.hooked k restoreOld)).1 = s ∧
     flisting (s.hstep f (.hooked k restoreOld)).1 = flisting s ∧
@@ -454,9 +457,14 @@ theorem C15_failed_dispense_invisible (f : String → String) (s : RStore) (k : 
     ((s.hstep f (.hooked k restoreOld)).2 =
       if k = "" then .res .rejected else if f k ∈ s.ids then .failed else .res .notFound) ∧
     keepNew.Tame ∧ restoreOld.Tame ∧
+    (∀ (used remaining : Option Nat) (q : Nat), (dispenseHook used remaining q).Tame ∧
+      (dispenseFails used remaining q = true →
+        (s.hstep f (.hooked k (dispenseHook used remaining q))).1 = s)) ∧
     ∀ ops : List RecOp, RStore.hrun f s (ops.map .plain) = RStore.irun f s ops := by
   have h := RStore.hstep_restore f s k restoreOld (fun _ _ => rfl)
   refine ⟨h, by rw [h], fun v tok size => by rw [h], ?_, keepNew_tame, restoreOld_tame,
+    fun used remaining q => ⟨dispenseHook_tame used remaining q, fun hq => by
+      simp only [dispenseHook, hq, if_true]; exact h⟩,
     fun ops => RStore.hrun_plain f ops s⟩
   simp only [RStore.hstep, restoreOld]
   by_cases hk : k = ""
@@ -727,6 +735,15 @@ example : flisting (RStore.hrun id [] [.plain (.initial "coffee"), .plain (.init
     (RStore.hstep id [⟨"milk", "milk"⟩] (.hooked "milk" keepNew)).2 = .res (.ok "milk") ∧
     (RStore.hstep id [⟨"milk", "milk"⟩] (.hooked "tea" keepNew)).2 = .res .notFound ∧
     (RStore.hstep foldAB [⟨"a", "a"⟩] (.hooked "A" keepNew)).1 = [⟨"a", "A"⟩] := by decide
+
+/-- The unit table: litres convert to cubic metres and cups, not to kilograms or metres; an unspecified unit converts
+only to itself; a stock kept in litres AND kilograms fails every dispense - in litres half-way (Used converts,
+Remaining does not). -/
+example : convertOk 3 4 = true ∧ convertOk 3 5 = true ∧ convertOk 3 6 = false ∧ convertOk 3 2 = false ∧
+    convertOk 0 0 = true ∧ convertOk 0 3 = false ∧ convertOk 1 1 = true ∧
+    dispenseFails (some 3) (some 3) 4 = false ∧ dispenseFails (some 3) (some 6) 3 = true ∧
+    dispenseFails (some 3) (some 6) 6 = true ∧ dispenseFails none (some 6) 6 = false ∧
+    dispenseFails none none 0 = false := by decide
 
 /-- The former hypothesis `f "" = ""` is gone (929e9c0): before it `Collection.Update` tested the INTERCEPTED id for
 emptiness, so an interceptor that maps the empty id to a key of its own switched id generation off and
